@@ -61,7 +61,7 @@ def cases(tier, seed, shard, nshards):
                    "opts": r.randrange(7), "inplace": r.random() < .5}
         else:
             yield {"k": "fp", "texts": [rand_text(r) for _ in range(3)], "which": r.choice(["enc", "dec"]), "mode": r.choice(["always", "marker"]),
-                   "inplace": r.random() < .5}
+                   "inplace": r.random() < .5, "order": r.sample(range(6), 6), "where": r.choice(["title", "note", "np.first", "np.last", "nponly.first", "nponly.von", "nponly.last", "nponly.jr"])}
 
 
 _DIRECT = None
@@ -97,7 +97,7 @@ def in_quantifier(t):
     return "$" not in rest and "http" not in rest and "www." not in rest
 
 
-def mk_library(texts, with_np=True):
+def mk_library(texts, with_np=True, order=None, np_only=None):
     from bibtexparser import model as M
     from bibtexparser.library import Library
     from bibtexparser.middlewares import NameParts
@@ -108,11 +108,15 @@ def mk_library(texts, with_np=True):
         fields.append(M.Field("author", NameParts(first=[t[2]], von=[], last=[t[0], t[1]], jr=[]), 4))
         fields.append(M.Field("editor", [NameParts(first=[t[1]], last=[t[2]])], 5))
         fields.append(M.Field("keywords", [t[0], t[1]], 6))
+    if order:
+        fields = [fields[i % len(fields)] for i in order if i < len(fields)] + [f for j, f in enumerate(fields) if j not in order]
     e = M.Entry("article", "Key" + "é", fields, start_line=3, raw="@article{raw " + t[0] + "}")
     e.set_parser_metadata("some", {"meta": t[0]})
     blocks = [M.String("str" + "é", t[2], 0, "@string{raw}"), e, M.Preamble("pre " + t[0], 9, "@preamble{raw}"), M.ExplicitComment("c " + t[1], 10, "@comment{raw}"),
               M.ImplicitComment("% " + t[2], 11, "% raw"), M.ParsingFailedBlock(BlockAbortedException("x", 1), 12, "@failed{" + t[0]),
               M.Entry("book", "second", [M.Field("title", t[2], 20)], 19, "raw2")]
+    if np_only is not None:
+        blocks.append(M.Entry("misc", "nponly", [M.Field("author", NameParts(first=[np_only[0]], von=[np_only[1]], last=[np_only[2]], jr=[np_only[3]]), 30)], 29, "raw3"))
     return Library(blocks)
 
 
@@ -226,11 +230,21 @@ def check_failpoint(case, ctx):
             return super().latex_to_text(s, **kw)
 
     tx = list(texts)
+    where = case.get("where", "title")
+    np_only = ["Aa", "bb", "Cc", "jr"]
     if mode == "marker":
-        tx[0] = tx[0] + " " + marker
-    lib = mk_library(tx, with_np=True)
+        if where in ("title", "np.last"):
+            tx[0] = tx[0] + " " + marker          # t[0] is the title and the first word of author.last
+        elif where == "note":
+            tx[1] = tx[1] + " " + marker
+        elif where == "np.first":
+            tx[2] = tx[2] + " " + marker          # t[2] is author.first (and the @string value)
+        else:
+            np_only[["nponly.first", "nponly.von", "nponly.last", "nponly.jr"].index(where)] += marker
+    lib = mk_library(tx, with_np=True, order=case.get("order"), np_only=np_only)
     orig_entry_fp = fp(lib.blocks[1])
     orig_second_fp = fp(lib.blocks[6])
+    orig_np_fp = fp(lib.blocks[7])
     which = case["which"]
     mw = make(which, {}, case["inplace"], **({"encoder": BadEnc()} if which == "enc" else {"decoder": BadDec()}))
     st, res = sp.escape(lambda: mw.transform(lib))
@@ -239,24 +253,39 @@ def check_failpoint(case, ctx):
     if st == "raise":
         return [Violation("failure-not-contained", f"C18:failpoint:{which}:exception-escaped:{res.split(':')[0]}", dict(error=res, mode=mode))]
     out = []
+    hit_main = mode == "always" or not where.startswith("nponly")
+    hit_np = mode == "always" or where.startswith("nponly")
     b = res.blocks[1]
-    if sp.block_kind(b) != "mwerror" or sp.block_kind(b.ignore_error_block) != "entry":
-        return [Violation("failure-not-contained", f"C18:failpoint:{which}:no-error-block", dict(kinds=[sp.block_kind(x) for x in res.blocks], mode=mode))]
-    inner = b.ignore_error_block
-    if inner.key != "Key" + "é" or inner.entry_type != "article":
-        out.append(Violation("error-block", f"C18:failpoint:{which}:error-block-lost-entry-identity", dict(key=inner.key)))
-    if mode == "always":
-        if fp(inner) != orig_entry_fp:
+    if hit_main:
+        if sp.block_kind(b) != "mwerror" or sp.block_kind(b.ignore_error_block) != "entry":
+            return [Violation("failure-not-contained", f"C18:failpoint:{which}:no-error-block:{'nameparts' if where.startswith('np') else 'str'}-value",
+                              dict(kinds=[sp.block_kind(x) for x in res.blocks], mode=mode, where=where, order=case.get("order")))]
+        inner = b.ignore_error_block
+        if inner.key != "Key" + "é" or inner.entry_type != "article":
+            out.append(Violation("error-block", f"C18:failpoint:{which}:error-block-lost-entry-identity", dict(key=inner.key)))
+        if mode == "always" and fp(inner) != orig_entry_fp:
             out.append(Violation("error-block", f"C18:failpoint:{which}:contained-entry-differs-from-original", dict(mode=mode)))
-        b2 = res.blocks[6]
+        if mode == "marker" and where == "title" and inner["title"] != tx[0]:
+            out.append(Violation("error-block", f"C18:failpoint:{which}:failing-value-changed", dict(got=srepr(inner['title']), want=tx[0])))
+    elif sp.block_kind(b) != "entry":
+        out.append(Violation("error-block", f"C18:failpoint:{which}:healthy-entry-became-error", dict(kind=sp.block_kind(b), where=where)))
+    b7 = res.blocks[7]
+    if hit_np:
+        if sp.block_kind(b7) != "mwerror" or sp.block_kind(b7.ignore_error_block) != "entry":
+            return out + [Violation("failure-not-contained", f"C18:failpoint:{which}:no-error-block:nameparts-only-entry",
+                                    dict(kinds=[sp.block_kind(x) for x in res.blocks], mode=mode, where=where))]
+        if mode == "always" and fp(b7.ignore_error_block) != orig_np_fp:
+            out.append(Violation("error-block", f"C18:failpoint:{which}:contained-entry-differs-from-original", dict(mode=mode, entry="nponly")))
+    elif sp.block_kind(b7) != "entry":
+        out.append(Violation("error-block", f"C18:failpoint:{which}:healthy-entry-became-error", dict(kind=sp.block_kind(b7), where=where)))
+    b2 = res.blocks[6]
+    if mode == "always":
         if sp.block_kind(b2) != "mwerror" or fp(b2.ignore_error_block) != orig_second_fp:
             out.append(Violation("error-block", f"C18:failpoint:{which}:second-entry-not-contained", dict(kind=sp.block_kind(b2))))
-    else:
-        if inner["title"] != tx[0]:
-            out.append(Violation("error-block", f"C18:failpoint:{which}:failing-value-changed", dict(got=srepr(inner['title']), want=tx[0])))
-        # the second entry has no marker: it must still be a converted, live entry
-        if sp.block_kind(res.blocks[6]) != "entry":
-            out.append(Violation("error-block", f"C18:failpoint:{which}:healthy-entry-became-error", dict(kind=sp.block_kind(res.blocks[6]))))
+    elif where == "np.first":
+        pass    # t[2] is also the title of the second entry: it fails as well
+    elif sp.block_kind(b2) != "entry":
+        out.append(Violation("error-block", f"C18:failpoint:{which}:healthy-entry-became-error", dict(kind=sp.block_kind(b2))))
     s = res.blocks[0]
     sk = sp.block_kind(s)
     if sk == "string":
